@@ -25,6 +25,7 @@ type edge struct {
 	R string          `json:"r"`
 	S json.RawMessage `json:"s"`
 	T json.RawMessage `json:"t"`
+	G json.RawMessage `json:"g"`
 }
 
 type step struct {
@@ -33,11 +34,15 @@ type step struct {
 	T interface{} `json:"t"`
 }
 
+// A recorded real execution: starts in the (conforming) source state of a deviating edge, whose ghost state g the model
+// supplies; h = the history that leads there (for the report only).
 type trace struct {
-	Id    int         `json:"id"`
-	Kind  string      `json:"kind"` // "dev": an edge where the real contracts deviate; "off": exploration from a deviating state
-	Init  interface{} `json:"init"`
-	Steps []step      `json:"steps"`
+	Id    int             `json:"id"`
+	Kind  string          `json:"kind"` // "dev": an edge where the real contracts deviate; "off": exploration from a deviating state
+	G     json.RawMessage `json:"g"`
+	H     []*act          `json:"h"`
+	Init  interface{}     `json:"init"`
+	Steps []step          `json:"steps"`
 }
 
 // canon sorts every array by the canonical encoding of its elements (all arrays of the observation are sets).
@@ -99,13 +104,16 @@ type runner struct {
 	depth int
 	capT  int
 
-	mu      sync.Mutex
-	seen    map[string]bool // canonical real states already explored off-model
-	pool    chan *world
-	nTraces int
-	nOff    int
-	capHit  bool
-	distinct map[string]bool
+	mu        sync.Mutex
+	seen      map[string]bool // canonical real states already explored off-model
+	seenEdge  map[string]bool // real (state, action) pairs already executed off-model
+	pool      chan *world
+	nTraces   int
+	nOffTr    int
+	offByArea map[string]int // recorded exploration traces per area (the cap is shared evenly)
+	nOff      int
+	capHit    bool
+	distinct  map[string]bool
 }
 
 func (r *runner) emitTrace(t trace) {
@@ -142,17 +150,20 @@ func (w *world) restore(s snap) {
 	w.sb.Height = s.height
 }
 
-// run replays path on a fresh world, returning the world and the recorded steps (real results and observations).
-func (r *runner) run(area string, path []*act) (*world, interface{}, []step) {
+// run replays hist (unrecorded) and then suffix (recorded: real results and observations) on a recycled world.
+func (r *runner) run(area string, hist, suffix []*act) (interface{}, []step) {
 	w := r.getWorld()
 	defer r.putWorld(w)
+	for _, a := range hist {
+		w.exec(a)
+	}
 	init := w.project(area, r.tab)
-	steps := make([]step, 0, len(path))
-	for _, a := range path {
+	steps := make([]step, 0, len(suffix))
+	for _, a := range suffix {
 		res := w.exec(a)
 		steps = append(steps, step{A: a, R: res, T: w.project(area, r.tab)})
 	}
-	return w, init, steps
+	return init, steps
 }
 
 // worlds are recycled (creating the in-memory LevelDB costs several ms): a recycled world is restored to the
@@ -184,48 +195,106 @@ func areaOf(raw json.RawMessage) string {
 	return x.Area
 }
 
-// explore: breadth-first over the real contracts from the state reached by `path`, bounded depth, global dedup.
-func (r *runner) explore(area string, path []*act) {
-	type node struct {
-		path []*act
-		d    int
+// Exploration of the REAL contracts from the deviating states: breadth-first, level by level over all deviating states
+// (so every one of them gets its depth-1 successors before any goes deeper), bounded depth, every distinct real
+// (state, action) pair executed once and every real state expanded once (global dedup), bounded number of recorded traces.
+type node struct {
+	area   string
+	g      json.RawMessage
+	hist   []*act
+	suffix []*act
+}
+
+func (r *runner) expand(nd node) (children []node) {
+	w := r.getWorld()
+	defer r.putWorld(w)
+	for _, a := range nd.hist {
+		w.exec(a)
 	}
-	queue := []node{{path, 0}}
-	for len(queue) > 0 {
-		nd := queue[0]
-		queue = queue[1:]
-		if nd.d >= r.depth {
+	for _, a := range nd.suffix {
+		w.exec(a)
+	}
+	pre := canonStr(w.project(nd.area, r.tab))
+	sn := w.snapshot()
+	for _, b := range r.alpha[nd.area] {
+		ek := pre + "|" + b.key()
+		r.mu.Lock()
+		stop := r.offByArea[nd.area] >= r.capT/len(r.alpha)+1
+		dup := r.seenEdge[ek]
+		r.seenEdge[ek] = true
+		if stop {
+			r.capHit = true
+		}
+		r.mu.Unlock()
+		if stop {
+			return
+		}
+		if dup {
 			continue
 		}
-		for _, b := range r.alpha[area] {
-			r.mu.Lock()
-			if r.nOff >= r.capT {
-				r.capHit = true
-				r.mu.Unlock()
-				return
-			}
-			r.nOff++
-			r.mu.Unlock()
-			p := append(append([]*act{}, nd.path...), b)
-			_, init, steps := r.run(area, p)
-			last := steps[len(steps)-1]
-			prev := init
-			if len(steps) > 1 {
-				prev = steps[len(steps)-2].T
-			}
-			cs := canonStr(last.T)
-			if (last.R == "err" || last.R == "ok") && cs == canonStr(prev) {
-				continue // nothing applied and nothing changed: nothing to judge
-			}
-			r.emitTrace(trace{Kind: "off", Init: init, Steps: steps})
-			r.mu.Lock()
-			fresh := !r.seen[cs]
-			r.seen[cs] = true
-			r.mu.Unlock()
-			if fresh {
-				queue = append(queue, node{p, nd.d + 1})
-			}
+		res := w.exec(b)
+		post := canonStr(w.project(nd.area, r.tab))
+		w.restore(sn)
+		r.mu.Lock()
+		r.nOff++
+		r.mu.Unlock()
+		if (res == "err" || res == "ok") && post == pre {
+			continue // nothing applied and nothing changed: nothing to judge
 		}
+		sfx := append(append([]*act{}, nd.suffix...), b)
+		init, steps := r.run(nd.area, nd.hist, sfx)
+		r.emitTrace(trace{Kind: "off", G: nd.g, H: nd.hist, Init: init, Steps: steps})
+		r.mu.Lock()
+		r.nOffTr++
+		r.offByArea[nd.area]++
+		fresh := !r.seen[post]
+		r.seen[post] = true
+		r.mu.Unlock()
+		if fresh {
+			children = append(children, node{nd.area, nd.g, nd.hist, sfx})
+		}
+	}
+	return
+}
+
+func nodeKey(n node) string {
+	k := n.area
+	for _, a := range n.hist {
+		k += "/" + a.key()
+	}
+	k += "//"
+	for _, a := range n.suffix {
+		k += "/" + a.key()
+	}
+	return k
+}
+
+// deterministic order (independent of the parallel schedule), then a seeded shuffle: the cap samples the deviating
+// states fairly instead of spending itself on the first ones
+func shuffle(ns []node, rng *vio.RNG) {
+	sort.Slice(ns, func(i, j int) bool { return nodeKey(ns[i]) < nodeKey(ns[j]) })
+	p := rng.Perm(len(ns))
+	out := make([]node, len(ns))
+	for i, j := range p {
+		out[i] = ns[j]
+	}
+	copy(ns, out)
+}
+
+func (r *runner) exploreAll(roots []node) {
+	cur := roots
+	rng := vio.NewRNG(vio.Seed() ^ 0xe8)
+	for d := 0; d < r.depth && len(cur) > 0; d++ {
+		shuffle(cur, rng)
+		var next []node
+		var mu sync.Mutex
+		vio.ParMap(len(cur), workers(), func(i int) {
+			ch := r.expand(cur[i])
+			mu.Lock()
+			next = append(next, ch...)
+			mu.Unlock()
+		})
+		cur = next
 	}
 }
 
@@ -269,7 +338,7 @@ func main() {
 	lines := vio.ReadLines()
 	edges := make([]edge, len(lines))
 	r := &runner{n: newNames(vio.Seed()), nv: nv, mode: mode, tab: labelTab{}, alpha: map[string][]*act{},
-		depth: depth, capT: capT, pool: make(chan *world, 64), seen: map[string]bool{}, distinct: map[string]bool{}}
+		depth: depth, capT: capT, pool: make(chan *world, 64), seen: map[string]bool{}, seenEdge: map[string]bool{}, offByArea: map[string]int{}, distinct: map[string]bool{}}
 	seenAct := map[string]bool{}
 	for i, l := range lines {
 		if err := json.Unmarshal(l, &edges[i]); err != nil {
@@ -288,6 +357,7 @@ func main() {
 		}
 	}
 	var matched, unreachable, deviations int64
+	var roots []node
 	var cmu sync.Mutex
 	// group the edges by history: one replay per model state
 	groups := map[string][]int{}
@@ -338,18 +408,21 @@ func main() {
 			cmu.Lock()
 			deviations++
 			cmu.Unlock()
-			path := append(append([]*act{}, hist...), &e.A)
-			_, init, steps := r.run(area, path)
-			r.emitTrace(trace{Kind: "dev", Init: init, Steps: steps})
+			init, steps := r.run(area, hist, []*act{&e.A})
+			r.emitTrace(trace{Kind: "dev", G: e.G, H: hist, Init: init, Steps: steps})
 			r.mu.Lock()
 			fresh := !r.seen[post]
 			r.seen[post] = true
+			r.seenEdge[pre+"|"+e.A.key()] = true
 			r.mu.Unlock()
 			if fresh {
-				r.explore(area, path)
+				cmu.Lock()
+				roots = append(roots, node{area, e.G, hist, []*act{&e.A}})
+				cmu.Unlock()
 			}
 		}
 	})
+	r.exploreAll(roots)
 	vio.Emit(map[string]interface{}{"summary": true, "edges": len(edges), "matched": matched, "unreachable": unreachable,
 		"deviations": deviations, "offmodel": r.nOff, "cap_hit": r.capHit, "distinct": len(r.distinct), "traces": r.nTraces})
 }
